@@ -786,3 +786,47 @@ def field_at(r: dict, off: int) -> str:
             return "blob." + ("header" if rel < 4 else ("flags", "size", "algorithm", "mode")[rel - 4] if rel < 8 else "wrapped-key")
         return "sigblock.padding"
     return "padding"
+
+
+# ---------------------------------------------------------------------------------------------
+# placement from container headers alone (no file needed)
+
+
+def layout_problems(headers: list) -> Optional[list]:
+    """Interval arithmetic on the exported container headers of an image set (container i sits at i * slot): every image
+    [container base + offset, + size) must be disjoint from every other image and from every container
+    [base, base + length).  -> list of collisions, or None when a header cannot be read."""
+    if not headers:
+        return None
+    h0 = head(headers[0], 0)
+    if h0 is None or h0[2] != TAG_CONTAINER or h0[0] not in CONTAINER_SLOT:
+        return None
+    slot = CONTAINER_SLOT[h0[0]]
+    spans, imgs = [], []
+    for i, hdr in enumerate(headers):
+        h = head(hdr, 0)
+        if h is None or h[2] != TAG_CONTAINER or len(hdr) < HDR_SIZE:
+            return None
+        base = i * slot
+        nimg = hdr[11]
+        if len(hdr) < HDR_SIZE + IAE_SIZE * nimg:
+            return None
+        spans.append((base, base + h[1], f"container {i}"))
+        for j in range(nimg):
+            off, size = struct.unpack_from("<LL", hdr, HDR_SIZE + IAE_SIZE * j)
+            if size:
+                imgs.append((base + off, base + off + size, f"container {i} image {j}"))
+    out = []
+    for a0, a1, an in imgs:
+        for b0, b1, bn in spans:
+            if a0 < b1 and b0 < a1:
+                out.append(f"{an} [{a0:#x}, {a1:#x}) overlaps {bn} [{b0:#x}, {b1:#x})")
+    for i, (a0, a1, an) in enumerate(imgs):
+        for b0, b1, bn in imgs[i + 1:]:
+            if a0 < b1 and b0 < a1:
+                out.append(f"{an} [{a0:#x}, {a1:#x}) overlaps {bn} [{b0:#x}, {b1:#x})")
+    for i, (a0, a1, an) in enumerate(spans):
+        for b0, b1, bn in spans[i + 1:]:
+            if a0 < b1 and b0 < a1:
+                out.append(f"{an} [{a0:#x}, {a1:#x}) overlaps {bn} [{b0:#x}, {b1:#x})")
+    return out
